@@ -292,6 +292,10 @@ class Sim:
         d = FS.dir("shared") if self.A.get("shared_dir") else FS.dir("h%d" % hi)
         return {"dir": d, "box": self.box[hi], "cif_text": not self.cif_loaded[hi]}
 
+    def _box_digest(self, hi):
+        """Argument objects the caller keeps (lists, arrays): the library must leave them alone."""
+        return digest(norm({k: v for k, v in self.box[hi].items() if k != "mol"}))
+
     def _ref_box(self, hi):
         """The reference's caller holds equal objects rebuilt by value (never
         the used side's objects themselves, nor anything cached on them)."""
@@ -483,6 +487,7 @@ class Sim:
         # (the name is the one the handle had when it entered the world: no
         # operation of the API renames a crystal)
         pre = rebuild_state(h, self.stats) + (self.titl0[hi], dict(self._ref_box(hi), __cif_text__=not self.cif_loaded[hi]))
+        box0, keys0 = self._box_digest(hi), set(self.box[hi])
         if defer and not inject:
             held = self._call_and_hold(i, hi, op, fn, pre, S, mask, others, thread)
             if held is not None:
@@ -533,6 +538,8 @@ class Sim:
         if state_digest(h) != S:
             raise Violation("QUERY_MUTATED_STATE", i, op, hi, {"memo_mask": mask})
         key = (op, S)
+        if self._box_digest(hi) != box0 and not set(self.box[hi]) - keys0:
+            raise Violation("QUERY_MUTATED_STATE", i, op, hi, {"what": "the call edited an argument object of its caller"})
         prev = self.repeat[hi].get(key)
         if prev is not None and not outcomes_equal(prev, a):
             raise Violation(
